@@ -98,6 +98,7 @@ const (
 	ErrVolumeAlreadyExists CustomError = customErrorBase + 4 // Volume already exists.
 	ErrVolumeNameInvalid   CustomError = customErrorBase + 5 // Volume name is invalid.
 	ErrVolumeWindows       CustomError = customErrorBase + 6 // Volumes are available for Windows only.
+	ErrWriteAtInAppendMode CustomError = customErrorBase + 7 // os: invalid use of WriteAt on file opened with O_APPEND
 )
 
 func (i CustomError) Error() string {
